@@ -64,7 +64,8 @@ def ref_trusted(host, trusted):
     return False
 
 
-TRUSTED_LISTS = [["ab"], [".ab"], ["a.b", ".c"], ["ab:80"], ["localhost", ".localhost", "127.0.0.1"], ["[::1]", "c"], [".c", "d"]]
+TRUSTED_LISTS = [["ab"], [".ab"], ["a.b", ".c"], ["ab:80"], ["localhost", ".localhost", "127.0.0.1"], ["[::1]", "c"], [".c", "d"],
+                 []]   # an empty list trusts nobody (it is not "no restriction")
 
 
 def body_host_trust(I, X, n=3, tl=0, via="host_is_trusted", scheme="http", suffix=""):
@@ -83,6 +84,19 @@ def body_host_trust(I, X, n=3, tl=0, via="host_is_trusted", scheme="http", suffi
     if via == "host_is_trusted":
         got = I.call(utils.host_is_trusted, (host, trusted))
         got = bool(got)
+    elif via == "request":
+        # request-level enforcement: Request.host with trusted_hosts configured
+        from werkzeug.sansio.request import Request
+
+        from werkzeug.datastructures import Headers
+
+        req = I.call(Request, ("GET", scheme, ("srv", 80), "", "/", b"", I.call(Headers, ([("Host", host)],)), "1.2.3.4"))
+        req.trusted_hosts = trusted
+        try:
+            ret = I.getattr(req, "host")
+            got = True
+        except SecurityError:
+            got = False
     else:
         try:
             ret = I.call(utils.get_host, (scheme, host, None, trusted))
@@ -90,7 +104,7 @@ def body_host_trust(I, X, n=3, tl=0, via="host_is_trusted", scheme="http", suffi
         except SecurityError:
             got = False
     want = host
-    if via == "get_host":
+    if via in ("get_host", "request"):
         # get_host first drops the scheme's default port (documented), then checks trust
         default = {"http": ":80", "https": ":443"}[scheme]
         want = host[: plen(host) - len(default)] if bool(pendswith(host, default)) else host
@@ -343,6 +357,10 @@ def obligations(tier, seed):
                 out.append({"name": f"host_trust[{via},list={tl},n={n}]", "body": "body_host_trust",
                             "params": {"n": n, "tl": tl, "via": via},
                             "opts": {"budget_s": 900, "ctx": {"max_cp": 0x7F}}, "witness": n == 2 and tl == 1})
+    for tl in (0, 2, len(TRUSTED_LISTS) - 1):
+        for n in (range(0, 4) if quick else range(0, 6)):
+            out.append({"name": f"host_trust[request,list={tl},n={n}]", "body": "body_host_trust", "params": {"n": n, "tl": tl, "via": "request"},
+                        "opts": {"budget_s": 900, "ctx": {"max_cp": 0x7F}}})
     for scheme, suffix in (("http", ":80"), ("https", ":443"), ("http", ":443"), ("https", ":80")):
         for tl in (0, 2, 4):
             for n in (range(1, 4) if quick else range(1, 6)):
